@@ -148,7 +148,48 @@ def sample_better(ctx, d, val, xs, nsamp=4000):
     return best
 
 
+def reset_history(ctx, seed):
+    """solve a model with one conic atom, reset() it, state the plain LP on the same variables, solve again: the second optimum
+    is the LP's (closed form by enumeration of the box vertices), nothing of the discarded formulation may survive"""
+    import itertools
+    import rsome as rso
+    from rsome import ro
+    r = np.random.default_rng(seed)
+    ctx.search_cases += 1; ctx.evaluations += 1
+    c = r.choice([1.0, 2.0, 3.0], 3); cap = float(r.choice([3.0, 4.0]))
+    atoms = {'gmean': lambda x: rso.gmean(x, [3, 2, 1]) >= 0.9, 'pnorm72': lambda x: rso.pnorm(x, (7, 2)) <= 1.5, 'power53': lambda x: rso.power(x, 5, 3) <= 0.9,
+             'norm2': lambda x: rso.norm(x) <= 1.5, 'sumsqr': lambda x: rso.sumsqr(x) <= 2.0, 'exp': lambda x: rso.exp(x[0]) + rso.exp(x[1]) <= 4.0 if False else rso.exp(x[0]) <= 2.0,
+             'entropy': lambda x: rso.entropy(x + 0.5) >= 0.2, 'pnorm3': lambda x: rso.norm(x, 3) <= 1.5, 'abs': lambda x: abs(x[2]) <= 0.5}
+    name = str(r.choice(list(atoms)))
+    case = {"reset_seed": seed, "atom": name}
+    # LP optimum: max c.x, 0 <= x <= 2, sum x <= cap  (greedy on sorted costs)
+    rem = cap; truth = 0.0
+    for ci in sorted(c, reverse=True):
+        t_ = min(2.0, rem); truth += ci * t_; rem -= t_
+    try:
+        with C.quiet():
+            m = ro.Model(); x = m.dvar(3)
+            m.max(c @ x); m.st(x >= 0, x.sum() <= cap); m.st(atoms[name](x))
+            try:
+                C.solve_model(m)
+            except RuntimeError:
+                pass
+            m.reset()
+            m.st(x >= 0, x <= 2, x.sum() <= cap)
+            val = C.solve_model(m)
+    except C.SkipCase:
+        ctx.count('reset:skipped'); return
+    except Exception as ex:
+        ctx.hit('reset-history-raises:' + type(ex).__name__, {"error": str(ex)[:200]}, case); return
+    if abs(val - truth) > 1e-5 * (1 + abs(truth)):
+        ctx.hit('optimum-after-reset-is-not-the-restated-model', {"reported": float(val), "lp_optimum": truth}, case)
+    else:
+        ctx.count('reset:ok:' + name)
+
+
 def run(ctx):
+    for k in range(ctx.n(20, 300)):
+        reset_history(ctx, int(ctx.rng.integers(2 ** 31)))
     from harness.props import c06 as _c06
     for k in range(ctx.n(40, 600)):
         _c06.power_probe(ctx, int(ctx.rng.integers(2 ** 31)), tight=True)
@@ -216,6 +257,10 @@ def brute(ctx, d, val):
 
 
 def replay(rp):
+    if 'reset_seed' in rp['case']:
+        ctx = C.Ctx('C07', 'quick', 0)
+        reset_history(ctx, rp['case']['reset_seed'])
+        return {"hits": [(h['key'], h['detail']) for h in ctx.hits], "fails": bool(ctx.hits)}
     if 'power_seed' in rp['case']:
         from harness.props import c06 as _c06
         ctx = C.Ctx('C07', 'quick', 0)
